@@ -512,10 +512,120 @@ fn c14_extreme_victims(w: &mut W) {
     }
 }
 
+/// Victims the library itself accepts: a hostile or mutated single packet (templates of any
+/// width, odd paddings, counts that disagree) that decodes to exactly one packet spanning the whole
+/// buffer on a parser warmed with hostile templates. Its own header then announces that length:
+/// every proper prefix (V9: not on a flowset boundary) must be an error carrying the prefix.
+fn c14_hostile_victim(w: &mut W, rng: &mut Rng) {
+    let mut hs = crate::gen_host::Hostile::new();
+    let mut base = Sut::new(1);
+    for _ in 0..(1 + rng.usize(3)) {
+        let b = hs.packet(rng, &w.pools);
+        if std::panic::catch_unwind(std::panic::AssertUnwindSafe(|| base.parse(0, &b))).is_err() {
+            crate::util::take_panic();
+            w.rep.panics_foreign += 1;
+            return;
+        }
+    }
+    let ref_snap = snap(&base.parsers[0]);
+    for _ in 0..4 {
+        let vw = hs.packet(rng, &w.pools);
+        if vw.len() < 4 || vw.len() > 4096 {
+            continue;
+        }
+        let mut p0 = clone_parser(&base.parsers[0]);
+        let full = match std::panic::catch_unwind(std::panic::AssertUnwindSafe(|| p0.parse_bytes(&vw))) {
+            Ok(r) => r,
+            Err(_) => {
+                crate::util::take_panic();
+                w.rep.panics_foreign += 1;
+                return;
+            }
+        };
+        w.rep.count("hostile_victim_candidates", 1);
+        let allowed = p0.allowed_versions.clone();
+        let spans_all = full.len() == 1 && !full[0].is_error() && matches!(account(&vw, &full, &allowed), Ok(a) if a.spans.len() == 1 && a.spans[0] == (0, vw.len()));
+        if !spans_all {
+            continue;
+        }
+        let ver = match &full[0] {
+            NetflowPacket::V5(_) => 5,
+            NetflowPacket::V7(_) => 7,
+            NetflowPacket::V9(_) => 9,
+            _ => 10,
+        };
+        let mut excluded: Vec<usize> = vec![];
+        if let NetflowPacket::V9(v) = &full[0] {
+            if v.flowsets.iter().any(|f| f.header.length < 4) {
+                continue;
+            }
+            let mut off = 20usize;
+            excluded.push(off);
+            for f in &v.flowsets {
+                off += f.header.length as usize;
+                excluded.push(off);
+            }
+        }
+        w.rep.count("hostile_victims", 1);
+        w.rep.count(&format!("hostile_victim.v{}", ver), 1);
+        w.rep.count("packets", 1);
+        let cuts: Vec<usize> = if vw.len() <= 300 {
+            (1..vw.len()).collect()
+        } else {
+            let mut c: Vec<usize> = (0..60).map(|_| 1 + rng.usize(vw.len() - 1)).collect();
+            c.extend_from_slice(&[1, 2, 3, 4, vw.len() - 1, vw.len() - 2, vw.len() - 3]);
+            c.sort();
+            c.dedup();
+            c
+        };
+        for cut in cuts {
+            if excluded.contains(&cut) {
+                continue;
+            }
+            let mut p = clone_parser(&base.parsers[0]);
+            let res = match std::panic::catch_unwind(std::panic::AssertUnwindSafe(|| p.parse_bytes(&vw[..cut]))) {
+                Ok(r) => r,
+                Err(_) => {
+                    crate::util::take_panic();
+                    w.rep.panics_foreign += 1;
+                    return;
+                }
+            };
+            w.rep.count("cut_points", 1);
+            let d = match res.as_slice() {
+                [NetflowPacket::Error(e)] if e.remaining == vw[..cut] => {
+                    if ver != 9 && snap(&p) != ref_snap {
+                        Some(div(&format!("trunc/v{}/caches", ver), "changed", format!("accepted hostile packet cut at {} of {}: caches changed: {}", cut, vw.len(), snap_diff(&snap(&p), &ref_snap))))
+                    } else {
+                        None
+                    }
+                }
+                [NetflowPacket::Error(e)] => Some(div(&format!("trunc/v{}", ver), "error-remaining", format!("accepted hostile packet cut at {} of {}: error.remaining has {} bytes", cut, vw.len(), e.remaining.len()))),
+                [other] => Some(div(&format!("trunc/v{}", ver), "accepted", format!("a packet the library accepts in full ({} bytes, announced by its own header) cut at {} is reported as {}", vw.len(), cut, kind(other)))),
+                r => Some(div(&format!("trunc/v{}", ver), "element-count", format!("accepted hostile packet cut at {} of {}: {} elements {:?}, want one error", cut, vw.len(), r.len(), r.iter().map(kind).collect::<Vec<_>>()))),
+            };
+            if let Some(d) = d {
+                let mut s = Sut::new(1);
+                for (_, b) in &base.ops {
+                    s.parse(0, b);
+                }
+                s.parse(0, &vw[..cut]);
+                w.rep.violation(sig("C14", &d), &d, s.replay_json());
+                return;
+            }
+        }
+        w.rep.shape(&format!("hostile-victim v{} len{}", ver, vw.len() / 16));
+    }
+}
+
 pub fn run_c14(w: &mut W) {
     c14_extreme_victims(w);
     for idx in w.indices() {
         let mut rng = w.begin_case(idx, "truncation");
+        if idx % 4 == 1 {
+            c14_hostile_victim(w, &mut rng);
+            continue;
+        }
         let mut cfg = seq_cfg(&mut rng);
         cfg.max_records = if rng.chance(1, 10) { 30 } else { 4 };
         let mut ex = Exporter::new();
